@@ -1,7 +1,7 @@
 (* C13 -- the statements of props/C13.v, derived from the world invariant (Proofs.CacheWorld). *)
 From Coq Require Import ZArith List Bool Lia.
 From Model Require Import PyBase Cache.
-From Proofs Require Import CacheProofs CacheWf CacheCopy CacheCoh CacheWorld.
+From Proofs Require Import CacheProofs CacheWf CacheCopy CacheCoh CacheWorld CacheUnion.
 Import ListNotations.
 Open Scope Z_scope.
 
